@@ -240,6 +240,21 @@ func solveAll1(jobs []*job, timeoutS int, cross bool, workers int) {
 				}
 			}
 		}
+		if j.ob.SMTAlt != "" {
+			ap := strings.TrimSuffix(j.path, ".smt2") + ".alt.smt2"
+			alt := j.ob.SMTAlt
+			if sl, ok := sliceSMT(alt); ok {
+				alt = sl
+			}
+			if os.WriteFile(ap, []byte(alt), 0o644) == nil {
+				r := runSolver(context.Background(), solvers[0], ap, min(3, timeoutS))
+				if r.Status == "unsat" {
+					r.Solver += "+nohyps"
+					j.res = r
+					return
+				}
+			}
+		}
 		if (j.ob.Kind == "inv-pres" || j.ob.Kind == "post") && fitsRe.MatchString(j.ob.SMT) {
 			j.res = SolveResult{Status: "unknown"}
 		} else {
@@ -269,7 +284,25 @@ func solveAll1(jobs []*job, timeoutS int, cross bool, workers int) {
 		hard2 = append(hard2, j)
 		mu.Unlock()
 	})
-	hard = hard2
+	// the variant without lemma hypotheses gets a race of its own
+	var hard3 []*job
+	runPool(hard2, max(1, workers/len(solvers)), func(j *job) {
+		if j.ob.SMTAlt != "" {
+			ap := strings.TrimSuffix(j.path, ".smt2") + ".altfull.smt2"
+			if os.WriteFile(ap, []byte(j.ob.SMTAlt), 0o644) == nil {
+				r := raceSolvers(ap, min(8, timeoutS))
+				if r.Status == "unsat" {
+					r.Solver += "+nohyps"
+					j.res = r
+					return
+				}
+			}
+		}
+		mu.Lock()
+		hard3 = append(hard3, j)
+		mu.Unlock()
+	})
+	hard = hard3
 	var harder []*job
 	runPool(hard, max(1, workers/2), func(j *job) {
 		if r, ok := splitSolve(j, timeoutS); ok {
